@@ -1109,11 +1109,6 @@ where
 		wallet_lock!(wallet_inst, w);
 		w.parent_key_id()
 	};
-	let client = {
-		wallet_lock!(wallet_inst, w);
-		w.w2n_client().clone()
-	};
-
 	// (every step below works on the account that was active when the update started: the
 	// active account can be switched while it runs, and log ids are numbered per account)
 
@@ -1123,21 +1118,29 @@ where
 			"Updating outputs from node".to_owned(),
 		));
 	}
-	let mut result = update_outputs_of(
+	let seen_tip = update_outputs_of(
 		wallet_inst.clone(),
 		keychain_mask,
 		&parent_key_id,
 		update_all,
 	)?;
-
-	if !result {
-		if let Some(ref s) = status_send_channel {
-			let _ = s.send(StatusMessage::UpdateWarning(
-				"Updater Thread unable to contact node".to_owned(),
-			));
+	// The chain tip the outputs were refreshed at. Confirmation by kernel (step 2), the scan
+	// of recent blocks (step 3) and TTL expiry (step 5) all work against this same tip:
+	// looking at a newer one there would count what was mined while this update was running
+	// for one purpose and not for another (a transaction finalized and mined in between would
+	// be found expired and be cancelled although it is on chain, or be confirmed with its
+	// outputs still pending)
+	let tip = match seen_tip {
+		Some(t) => t,
+		None => {
+			if let Some(ref s) = status_send_channel {
+				let _ = s.send(StatusMessage::UpdateWarning(
+					"Updater Thread unable to contact node".to_owned(),
+				));
+			}
+			return Ok(false);
 		}
-		return Ok(result);
-	}
+	};
 
 	if let Some(ref s) = status_send_channel {
 		let _ = s.send(StatusMessage::UpdatingTransactions(
@@ -1150,7 +1153,13 @@ where
 		wallet_lock!(wallet_inst, w);
 		updater::retrieve_txs(&mut **w, None, None, None, Some(&parent_key_id), true)?
 	};
-	result = update_txs_via_kernel(wallet_inst.clone(), keychain_mask, &parent_key_id, &mut txs)?;
+	let result = update_txs_via_kernel(
+		wallet_inst.clone(),
+		keychain_mask,
+		&parent_key_id,
+		tip.0,
+		&mut txs,
+	)?;
 	if !result {
 		if let Some(ref s) = status_send_channel {
 			let _ = s.send(StatusMessage::UpdateWarning(
@@ -1161,19 +1170,6 @@ where
 	}
 
 	// Step 3: Scan back a bit on the chain
-	let res = client.get_chain_tip();
-	// if we can't get the tip, don't continue
-	let tip = match res {
-		Ok(t) => t,
-		Err(_) => {
-			if let Some(ref s) = status_send_channel {
-				let _ = s.send(StatusMessage::UpdateWarning(
-					"Updater Thread unable to contact node".to_owned(),
-				));
-			}
-			return Ok(false);
-		}
-	};
 
 	// Check if this is a restored wallet that needs a full scan
 	let last_scanned_block = {
@@ -1224,12 +1220,17 @@ where
 		batch.commit()?;
 	}
 
-	// Step 5: Cancel any transactions with an expired TTL
-	for tx in txs {
-		if let Some(e) = tx.ttl_cutoff_height {
-			if tip.0 >= e {
-				wallet_lock!(wallet_inst, w);
-				tx::cancel_tx(&mut **w, keychain_mask, &parent_key_id, Some(tx.id), None)?;
+	// Step 5: Cancel any transactions with an expired TTL (those that are outstanding now: the
+	// list read in step 2 may hold entries that were confirmed or cancelled since)
+	{
+		wallet_lock!(wallet_inst, w);
+		let outstanding =
+			updater::retrieve_txs(&mut **w, None, None, None, Some(&parent_key_id), true)?;
+		for tx in outstanding {
+			if let Some(e) = tx.ttl_cutoff_height {
+				if tip.0 >= e {
+					tx::cancel_tx(&mut **w, keychain_mask, &parent_key_id, Some(tx.id), None)?;
+				}
 			}
 		}
 	}
@@ -1324,31 +1325,14 @@ where
 	Ok((sender_mine, recipient_mine))
 }
 
-/// Attempt to update outputs in wallet, return whether it was successful
-fn update_outputs<'a, L, C, K>(
-	wallet_inst: Arc<Mutex<Box<dyn WalletInst<'a, L, C, K>>>>,
-	keychain_mask: Option<&SecretKey>,
-	update_all: bool,
-) -> Result<bool, Error>
-where
-	L: WalletLCProvider<'a, C, K>,
-	C: NodeClient + 'a,
-	K: Keychain + 'a,
-{
-	let parent_key_id = {
-		wallet_lock!(wallet_inst, w);
-		w.parent_key_id()
-	};
-	update_outputs_of(wallet_inst, keychain_mask, &parent_key_id, update_all)
-}
-
-/// As `update_outputs`, for a given account
+/// Attempt to update the outputs of an account from the node; returns the chain tip (height,
+/// hash) they were refreshed at (None if the node could not be reached)
 fn update_outputs_of<'a, L, C, K>(
 	wallet_inst: Arc<Mutex<Box<dyn WalletInst<'a, L, C, K>>>>,
 	keychain_mask: Option<&SecretKey>,
 	parent_key_id: &Identifier,
 	update_all: bool,
-) -> Result<bool, Error>
+) -> Result<Option<(u64, String)>, Error>
 where
 	L: WalletLCProvider<'a, C, K>,
 	C: NodeClient + 'a,
@@ -1356,12 +1340,12 @@ where
 {
 	wallet_lock!(wallet_inst, w);
 	match updater::refresh_outputs(&mut **w, keychain_mask, parent_key_id, update_all) {
-		Ok(_) => Ok(true),
+		Ok(h) => Ok(Some(h)),
 		Err(e) => {
 			if let Error::InvalidKeychainMask = e {
 				return Err(e);
 			}
-			Ok(false)
+			Ok(None)
 		}
 	}
 }
@@ -1398,6 +1382,7 @@ fn update_txs_via_kernel<'a, L, C, K>(
 	wallet_inst: Arc<Mutex<Box<dyn WalletInst<'a, L, C, K>>>>,
 	keychain_mask: Option<&SecretKey>,
 	parent_key_id: &Identifier,
+	height: u64,
 	txs: &mut Vec<TxLogEntry>,
 ) -> Result<bool, Error>
 where
@@ -1408,11 +1393,6 @@ where
 	let mut client = {
 		wallet_lock!(wallet_inst, w);
 		w.w2n_client().clone()
-	};
-
-	let height = match client.get_chain_tip() {
-		Ok(h) => h.0,
-		Err(_) => return Ok(false),
 	};
 
 	for tx in txs.iter_mut() {
